@@ -185,12 +185,13 @@ impl LogReader {
         T: DeserializeOwned,
     {
         // We assume that the caller always provide a valid data entry so we can expand the Mmap
-        // and try reading with the `len` and `pos`.
-        if pos >= self.mmap.len() as u64 {
-            self.mmap = memmap2::MmapOptions::new().map(&self.file)?;
-        }
+        // and try reading with the `len` and `pos`. The file may have been mapped while an entry
+        // was still being written, so the entry has to be inside the mapping with its end too.
         let start = pos as usize;
         let end = start + len as usize;
+        if end > self.mmap.len() {
+            self.mmap = memmap2::MmapOptions::new().map(&self.file)?;
+        }
         bincode::deserialize(&self.mmap[(start..end)])
     }
 
@@ -205,12 +206,13 @@ impl LogReader {
         W: Write,
     {
         // We assume that the caller always provide a valid data entry so we can expand the Mmap
-        // and try reading with the `len` and `pos`.
-        if pos >= self.mmap.len() as u64 {
-            self.mmap = memmap2::MmapOptions::new().map(&self.file)?;
-        }
+        // and try reading with the `len` and `pos`. The file may have been mapped while an entry
+        // was still being written, so the entry has to be inside the mapping with its end too.
         let start = pos as usize;
         let end = start + len as usize;
+        if end > self.mmap.len() {
+            self.mmap = memmap2::MmapOptions::new().map(&self.file)?;
+        }
         io::copy(&mut self.mmap[start..end].reader(), dst)
     }
 }
